@@ -433,9 +433,10 @@ func (k *kctx) fwht(class string) {
 		}
 		if box {
 			k.c.Case(op+" "+ints16(in), comma16(first))
+			k.n++
 		}
 		k.c.Case("pfwht "+ints16(in), comma16(want))
-		k.n += 2
+		k.n++
 	}
 }
 
@@ -512,11 +513,15 @@ func (k *kctx) fdctOn(sclass, rclass string, src, ref []byte) {
 			continue
 		}
 		same := true
+		var first []int16
 		for vi := range k.im.all {
 			v := &k.im.all[vi]
 			got := make([]int16, e.n)
 			if !k.guard(e.name, v.Name, replay, func() { e.run(v, got) }) {
 				continue
+			}
+			if vi == 0 {
+				first = got
 			}
 			if fmt.Sprint(got) != fmt.Sprint(want) {
 				same = false
@@ -525,6 +530,12 @@ func (k *kctx) fdctOn(sclass, rclass string, src, ref []byte) {
 			}
 		}
 		k.sig(e.name, sclass+"/"+rclass, same)
+		if e.name == "FTransform" && first != nil {
+			args := intsB(block4(src, 0)) + " " + intsB(block4(ref, 0))
+			k.c.Case("fdct "+args, comma16(first))
+			k.c.Case("pfdct "+args, comma16(want))
+			k.n += 2
+		}
 	}
 }
 
@@ -700,6 +711,12 @@ func (k *kctx) metrics(aclass, bclass string) {
 			}
 		}
 		k.sig(e.name, aclass+"/"+bclass, same)
+		if e.name == "TDisto4x4" && first >= 0 {
+			args := intsB(block4(a, 0)) + " " + intsB(block4(b, 0))
+			k.c.Case("tdisto "+args, fmt.Sprint(first))
+			k.c.Case("ptdisto "+args, fmt.Sprint(want))
+			k.n += 2
+		}
 		if e.name == "SSE4x4" && first >= 0 {
 			args := intsB(block4(a, 0)) + " " + intsB(block4(b, 0))
 			k.c.Case("sse "+args, fmt.Sprint(first))
@@ -806,6 +823,33 @@ func (k *kctx) upsample(width int, class string, bottom, alpha bool) {
 	k.sig("UpsampleLinePairNRGBA", fmt.Sprintf("%s/w%%8=%d/w>=8=%v/bottom=%v/alpha=%v", class, width%8, width >= 8, bottom, alpha), same)
 }
 
+// yuv sends single-pixel conversions to the models: with constant chroma rows
+// the diamond filter reproduces (u, v) exactly for every pixel, so pixel x of
+// the top row is YUVToRGB(y[x], u, v) computed by the batch routine.
+func (k *kctx) yuv(class string) {
+	const width = 12 // 8 by the AVX2 batch, 4 by the SSE2 batch (when dispatched so)
+	u, v := byte(k.r.U64()), byte(k.r.U64())
+	if class == "extreme" {
+		u, v = byte(k.r.Pick(0, 255, 128, 16, 240)), byte(k.r.Pick(0, 255, 128, 16, 240))
+	}
+	y := k.bytesOf(class, width)
+	cu, cv := bytes.Repeat([]byte{u}, width/2), bytes.Repeat([]byte{v}, width/2)
+	run := func(im *webp.VerifArchKernels) []byte {
+		t := make([]byte, width*4)
+		im.UpsampleLinePairNRGBA(y, nil, cu, cv, cu, cv, t, nil, nil, nil, width)
+		return t
+	}
+	want := run(&k.im.port)
+	got := run(&k.im.all[0])
+	for x := 0; x < width; x++ {
+		args := fmt.Sprintf("%d %d %d", y[x], u, v)
+		k.c.Case("yuv "+args, commaB(got[4*x:4*x+3]))
+		k.c.Case("pyuv "+args, commaB(want[4*x:4*x+3]))
+		k.n += 2
+	}
+	k.sig("YUVToRGB-batch", class, bytes.Equal(want, got))
+}
+
 // ---------- quantisation ----------
 
 func (k *kctx) quant(class string) {
@@ -874,6 +918,19 @@ func (k *kctx) quant(class string) {
 			}
 		}
 		k.sig(name, fmt.Sprintf("%s/first=%d", class, first), same)
+		if !inplace && reach {
+			// AC positions of the dispatched result against the one-coefficient models
+			old := webp.VerifArchSetAVX2(true)
+			got, _ := f(false, in, &sq, first)
+			webp.VerifArchSetAVX2(old)
+			for s := 0; s < 3; s++ {
+				n := 1 + k.r.Intn(15)
+				args := fmt.Sprintf("%d %d %d %d", in[n], sq.Sharpen[n], sq.IQuant, sq.Bias)
+				k.c.Case("quant "+args, fmt.Sprint(got[n]))
+				k.c.Case("pquant "+args, fmt.Sprint(want[n]))
+				k.n += 2
+			}
+		}
 	}
 	// dequantisation: levels * q, truncated to int16 on both sides
 	var lv [16]int16
@@ -905,9 +962,9 @@ func kernels(c *Ctx) {
 		names = append(names, v.Name)
 	}
 	c.D.Notes = append(c.D.Notes, "kernel differential: portable vs "+strings.Join(names, ", ")+fmt.Sprintf(" (AVX2 present: %v)", webp.VerifArchHasAVX2()))
-	scale := 6
+	scale := 4
 	if c.Thorough() {
-		scale = 120
+		scale = 24
 	}
 	// fixed witnesses of the _refuted theorems first
 	k.witnesses()
@@ -970,6 +1027,11 @@ func kernels(c *Ctx) {
 				k.upsample(w, cl, rep%2 == 0, true)
 				k.upsample(w, cl, false, false)
 			}
+		}
+	}
+	for rep := 0; rep < 60*scale; rep++ {
+		for _, cl := range []string{"rand", "extreme", "zero", "max", "mid"} {
+			k.yuv(cl)
 		}
 	}
 	for rep := 0; rep < 40*scale; rep++ {
